@@ -124,6 +124,25 @@ pub trait Subs {
 	fn sync_sub(&self, items: Vec<u64>);
 }
 
+/// Options in non-trailing positions, unit return, generic traits
+#[rpc(client, server, namespace = "e")]
+pub trait Extra {
+	#[method(name = "mid")]
+	fn mid(&self, a: Option<u8>, b: String, c: Option<bool>) -> RpcResult<(Option<u8>, String, Option<bool>)>;
+	#[method(name = "unit")]
+	async fn unit(&self, a: Vec<String>) -> RpcResult<()>;
+	#[method(name = "midmap", param_kind = map)]
+	async fn midmap(&self, a: Option<Point>, b: u64) -> RpcResult<(Option<Point>, u64)>;
+}
+
+#[rpc(client, server, namespace = "gen")]
+pub trait Gen<I, R> {
+	#[method(name = "call")]
+	fn call(&self, input: I, second: Option<R>) -> RpcResult<(I, Option<R>)>;
+	#[subscription(name = "sub", unsubscribe = "unsub", item = Vec<R>)]
+	async fn gsub(&self, input: I, items: Vec<R>) -> SubscriptionResult;
+}
+
 // ---------------------------------------------------------------------------------------------
 // server implementation: records what it was called with, returns what it is told to
 // ---------------------------------------------------------------------------------------------
@@ -208,6 +227,36 @@ impl DottedServer for Srv {
 }
 
 #[async_trait]
+impl ExtraServer for Srv {
+	fn mid(&self, a: Option<u8>, b: String, c: Option<bool>) -> RpcResult<(Option<u8>, String, Option<bool>)> {
+		self.rec("mid", (a, b, c))
+	}
+	async fn unit(&self, a: Vec<String>) -> RpcResult<()> {
+		self.rec("unit", (a,)).map(|_| ())
+	}
+	async fn midmap(&self, a: Option<Point>, b: u64) -> RpcResult<(Option<Point>, u64)> {
+		self.rec("midmap", (a, b))
+	}
+}
+
+#[async_trait]
+impl GenServer<Shape, Tagged> for Srv {
+	fn call(&self, input: Shape, second: Option<Tagged>) -> RpcResult<(Shape, Option<Tagged>)> {
+		self.rec("gen_call", (input, second))
+	}
+	async fn gsub(&self, pending: PendingSubscriptionSink, input: Shape, items: Vec<Tagged>) -> SubscriptionResult {
+		let _ = self.rec("gen_sub", (input, items.clone()));
+		let sink = pending.accept().await?;
+		// the item type is Vec<R>: prefixes of the list
+		for i in 0..items.len() {
+			sink.send(serde_json::value::to_raw_value(&items[..=i]).unwrap()).await?;
+		}
+		sink.closed().await;
+		Ok(())
+	}
+}
+
+#[async_trait]
 impl SubsServer for Srv {
 	async fn shapes(&self, pending: PendingSubscriptionSink, items: Vec<Shape>, n: u64) -> SubscriptionResult {
 		let _ = self.rec("shapes", (items.clone(), n));
@@ -236,6 +285,8 @@ pub fn build_methods(srv: Srv) -> Methods {
 	m.merge(PlainServer::into_rpc(srv.clone())).unwrap();
 	m.merge(SpacedServer::into_rpc(srv.clone())).unwrap();
 	m.merge(DottedServer::into_rpc(srv.clone())).unwrap();
+	m.merge(ExtraServer::into_rpc(srv.clone())).unwrap();
+	m.merge(GenServer::<Shape, Tagged>::into_rpc(srv.clone())).unwrap();
 	m.merge(SubsServer::into_rpc(srv)).unwrap();
 	m
 }
@@ -332,6 +383,11 @@ pub enum Call17 {
 	Sub(Vec<Point>, Option<String>),
 	Shapes(Vec<Shape>, u64),
 	SyncSub(Vec<u64>),
+	Mid(Option<u8>, String, Option<bool>),
+	Unit(Vec<String>),
+	MidMap(Option<Point>, u64),
+	GenCall(Shape, Option<Tagged>),
+	GenSub(Shape, Vec<Tagged>),
 }
 
 #[derive(Clone, Debug, Serialize, Deserialize)]
@@ -371,6 +427,11 @@ fn arb_call() -> BoxedStrategy<Call17> {
 		2 => (proptest::collection::vec(arb_point(), 0..4), proptest::option::of(arb_s())).prop_map(|(a, b)| Call17::Sub(a, b)),
 		2 => (proptest::collection::vec(arb_shape(), 0..4), arb_u64()).prop_map(|(a, b)| Call17::Shapes(a, b)),
 		1 => proptest::collection::vec(arb_u64(), 0..4).prop_map(Call17::SyncSub),
+		3 => (proptest::option::of(any::<u8>()), arb_s(), proptest::option::of(any::<bool>())).prop_map(|(a, b, c)| Call17::Mid(a, b, c)),
+		1 => proptest::collection::vec(arb_s(), 0..3).prop_map(Call17::Unit),
+		2 => (proptest::option::of(arb_point()), arb_u64()).prop_map(|(a, b)| Call17::MidMap(a, b)),
+		2 => (arb_shape(), proptest::option::of(arb_tagged())).prop_map(|(a, b)| Call17::GenCall(a, b)),
+		2 => (arb_shape(), proptest::collection::vec(arb_tagged(), 0..4)).prop_map(|(a, b)| Call17::GenSub(a, b)),
 	]
 	.boxed()
 }
@@ -699,6 +760,76 @@ impl SubCheck for Stubs {
 					let ok = calls.len() == 1 && calls[0].0 == "sync_sub" && calls[0].1.downcast_ref::<(Vec<u64>,)>() == Some(&(items.clone(),));
 					obs.check(ok, "c17/arguments-differ", || format!("{}", desc()));
 				}
+				Call17::Mid(a, b, cc) => {
+					opt_variation = a.is_none() || cc.is_none();
+					let (c2, got) = match via {
+						// hand-built array: the leading None must be spelled null, the trailing one may be left out
+						Via::OmitTail(1) if cc.is_none() => (None, seen(c.request::<(Option<u8>, String, Option<bool>), _>("e_mid", arr(vec![to_v(a), to_v(b)])).await)),
+						Via::ByName(st) => {
+							let mut pairs = vec![(key("b", st), to_v(b))];
+							if let Some(a) = a {
+								pairs.push((key("a", st), to_v(a)));
+							}
+							if let Some(cc) = cc {
+								pairs.push((key("c", st), to_v(cc)));
+							}
+							(*cc, seen(c.request::<(Option<u8>, String, Option<bool>), _>("e_mid", obj(pairs)).await))
+						}
+						_ => (*cc, seen(ExtraClient::mid(c, *a, b.clone(), *cc).await)),
+					};
+					judge!("mid", Some("e_mid"), (*a, b.clone(), c2), (*a, b.clone(), c2), got);
+				}
+				Call17::Unit(a) => {
+					non_scalar = !a.is_empty();
+					let got = seen(ExtraClient::unit(c, a.clone()).await);
+					judge!("unit", Some("e_unit"), (a.clone(),), (), got);
+				}
+				Call17::MidMap(a, b) => {
+					non_scalar = a.is_some();
+					opt_variation = a.is_none();
+					let got = match via {
+						// by-name: the leading None simply left out
+						Via::OmitTail(_) if a.is_none() => seen(c.request::<(Option<Point>, u64), _>("e_midmap", obj(vec![("b".into(), to_v(b))])).await),
+						_ => seen(ExtraClient::midmap(c, a.clone(), *b).await),
+					};
+					judge!("midmap", Some("e_midmap"), (a.clone(), *b), (a.clone(), *b), got);
+					if !matches!(via, Via::OmitTail(_)) {
+						let first: Value = lb.wire.lock().first().and_then(|s| serde_json::from_str(s).ok()).unwrap_or(Value::Null);
+						obs.check(first["params"].is_object(), "c17/by-name-encoding-not-used", || format!("{first}"));
+					}
+				}
+				Call17::GenCall(a, b) => {
+					non_scalar = true;
+					opt_variation = b.is_none();
+					let got = seen(GenClient::<Shape, Tagged>::call(c, a.clone(), b.clone()).await);
+					judge!("gen_call", Some("gen_call"), (a.clone(), b.clone()), (a.clone(), b.clone()), got);
+				}
+				Call17::GenSub(a, items) => {
+					non_scalar = true;
+					*lb.state.fail.lock() = None;
+					match GenClient::<Shape, Tagged>::gsub(c, a.clone(), items.clone()).await {
+						Err(e) => obs.fail("c17/subscribe-failed", format!("{e:?}; {}", desc())),
+						Ok(mut s) => {
+							match read_items(&mut s, items.len()).await {
+								Ok(got) => {
+									let want: Vec<Value> = (0..items.len()).map(|i| to_v(&items[..=i].to_vec())).collect();
+									obs.check(got == want, "c17/subscription-items-differ", || format!("{got:?} vs {want:?}; {}", desc()));
+								}
+								Err(e) => obs.fail("c17/subscription-items-missing", format!("{e}; {}", desc())),
+							}
+							let _ = s.unsubscribe().await;
+						}
+					}
+					let calls = lb.state.calls.lock();
+					let ok = calls.len() == 1 && calls[0].0 == "gen_sub" && calls[0].1.downcast_ref::<(Shape, Vec<Tagged>)>() == Some(&(a.clone(), items.clone()));
+					obs.check(ok, "c17/arguments-differ", || format!("{}", desc()));
+					drop(calls);
+					let w = lb.wire.lock();
+					let first: Value = w.first().and_then(|s| serde_json::from_str(s).ok()).unwrap_or(Value::Null);
+					obs.check(first["method"] == json!("gen_sub"), "c17/wrong-method-name-on-wire", || format!("{first}"));
+					let last: Value = w.last().and_then(|s| serde_json::from_str(s).ok()).unwrap_or(Value::Null);
+					obs.check(last["method"] == json!("gen_unsub"), "c17/wrong-unsubscribe-name-on-wire", || format!("{last}"));
+				}
 			}
 			if non_scalar || opt_variation {
 				obs.nontrivial();
@@ -755,7 +886,7 @@ fn to_camel(s: &str) -> String {
 }
 
 pub fn check(ctx: &mut Ctx) {
-	ctx.rule = "programs: a fixed family of 4 #[rpc(client, server)] traits / 15 methods compiled into the harness (0..4 params, trailing Options, param_kind array/map, #[argument(rename)], namespace with default and custom separator, aliases, sync/async/blocking, with_extensions, \
+	ctx.rule = "programs: a fixed family of 6 #[rpc(client, server)] traits / 20 methods compiled into the harness (0..4 params, trailing and non-trailing Options, unit return, a generic trait with a generic subscription item, param_kind array/map, #[argument(rename)], namespace with default and custom separator, aliases, sync/async/blocking, with_extensions, \
 		subscriptions with params / item types / notification-name override / unsubscribe aliases / by-name params / sync handler); inputs: generated argument values (integers at type boundaries, Unicode strings, nested structs, externally and internally tagged enums, Vec, BTreeMap, Option, tuples) and generated server results/errors. \
 		Each call goes stub -> real async client -> wire text -> Methods::raw_json_request -> server trait impl (which records its arguments). Also hand-built requests the stubs never emit: aliases, by-name requests with declared / snake_case / camelCase keys, trailing optionals omitted in arrays and objects. \
 		Oracle: the server method of that name ran once with arguments equal (PartialEq) to the stub's, the wire method name is the declared one, the client gets exactly the returned value / error object, subscription items arrive in order. Non-trivial = a non-scalar argument or an optional-tail variation; distinct by case value."
